@@ -181,8 +181,33 @@ func execSpecDecode(o *out, f [][]int) []int {
 			o.fail("attr-length-field", "201 "+fHex(data))
 		}
 	}
+	// the same datagram decoded into one long-lived Message that has held every earlier datagram of this
+	// run: what the decoder reports is a function of the bytes alone
+	reusedDecodeMu.Lock()
+	var rerr error
+	rpan, _ := guarded(func() { rerr = stun.Decode(data, &reusedDecodeMsg) })
+	var robs []int
+	if !rpan && rerr == nil {
+		r := &reusedDecodeMsg
+		robs = []int{1, int(r.Type.Method), int(r.Type.Class), int(r.Length)}
+		robs = append(robs, intsOf(r.TransactionID[:])...)
+		robs = append(robs, len(r.Attributes))
+		for _, a := range r.Attributes {
+			robs = append(robs, int(a.Type), len(a.Value))
+			robs = append(robs, intsOf(a.Value)...)
+		}
+	}
+	reusedDecodeMu.Unlock()
+	if rpan || fmt.Sprint(robs) != fmt.Sprint(obs) {
+		o.fail("reused-message-decodes-differently", "201 "+fHex(data))
+	}
 	return obs
 }
+
+var (
+	reusedDecodeMu  sync.Mutex
+	reusedDecodeMsg stun.Message
+)
 
 var errCallback = errors.New("callback failed")
 
